@@ -248,9 +248,63 @@ SIZES = {
 }
 
 
+# a call that ends in one of the admitted refusals, then an ordinary call through the one-call API (no harness reset in between:
+# the refusal is an outcome the property allows, what it leaves behind for the next input is not) - every renderer on both sides
+REFUSALS = [
+    ('LaTeX', {}, 'x `` ' + ''.join(chr(c) for c in range(33, 127)) + ' `` y\n'),
+    ('Pygments', {'fail_on_unsupported_language': True}, '```no-such-language-xyz\ncode\n```\n'),
+    ('Html', {}, '>' * 700 + ' a\n'), ('Markdown', {}, '>' * 700 + ' a\n'), ('LaTeX', {}, '- ' * 400 + 'a\n'), ('Jira', {}, '>' * 700 + ' a\n'),
+    ('XWiki20', {}, '>' * 700 + ' a\n'), ('MathJax', {}, '>' * 700 + ' a\n'), ('GithubWiki', {}, '>' * 700 + ' a\n'),
+]
+AFTER_REFUSAL_DOCS = ['a $x$ b\n\n[r]: /u\n\n[r] <b>c</b> [[w|t]]\n\n<div>\nx\n</div>\n', '# h\n\n- a `c`\n- b\n\n| t |\n|---|\n| u |\n\n    code\n']
+
+
+def after_refusal(ctx, i):
+    import mistletoe
+    rname, opts, text = REFUSALS[i]
+    for r2, _ in BASE_CONFIGS:
+        for d in AFTER_REFUSAL_DOCS:
+            ctx.ev()
+            cls = mt.renderer_class(rname)
+            refused = None
+            try:
+                try:
+                    if opts:
+                        with cls(**opts) as r:
+                            r.render(mt.Document(text))
+                    else:
+                        mistletoe.markdown(text, cls)
+                except BaseException as e:  # noqa
+                    if isinstance(e, (KeyboardInterrupt, SystemExit)):
+                        raise
+                    refused = admitted(e, rname, opts, text, 700 if text.startswith('>') else (400 if text.startswith('- -') else None))
+                if not refused:
+                    ctx.count('after-refusal', 'first call did not end in an admitted refusal (pair not judged)')
+                    continue
+                ctx.count('after-refusal', 'refusal ' + refused)
+                case = {'kind': 'after-refusal', 'index': i, 'renderer': r2, 'text': d}
+                try:
+                    out = mistletoe.markdown(d, mt.renderer_class(r2))
+                except BaseException as e:  # noqa
+                    if isinstance(e, (KeyboardInterrupt, SystemExit)):
+                        raise
+                    ctx.violation('raises', 'after an admitted refusal (%s): %s' % (refused, mt.exc_site(e)), case, renderer=r2,
+                                  first_call='%s %r...' % (rname, text[:30]), exception=repr(e), traceback=mt.tb_text(e))
+                    continue
+                if not isinstance(out, str):
+                    ctx.violation('returns-non-str', 'after an admitted refusal: type=%s renderer=%s' % (type(out).__name__, r2), case)
+                    continue
+                ctx.count('outcome', 'str after a refusal')
+            finally:
+                mt.reset()
+
+
 def run(ctx):
     signal.signal(signal.SIGVTALRM, _on_vtalrm)
     sz = SIZES[ctx.tier]
+    for i in range(len(REFUSALS)):
+        if i % ctx.nshards == ctx.shard:
+            after_refusal(ctx, i)
     rng = ctx.rng
     tmpdir = tempfile.mkdtemp(prefix='c01-', dir=os.path.join(HOME, 'out') if os.path.isdir(os.path.join(HOME, 'out')) else None)
     try:
@@ -362,6 +416,10 @@ PINNED = [
 
 def finalize(m, tier):
     inconclusive = []
+    ar = m.c('after-refusal')
+    for need in ('refusal latex-no-verb-delimiter', 'refusal pygments-fail-on-unsupported-language', 'refusal recursion-limit-depth>100'):
+        if ar.get(need, 0) < 10:
+            inconclusive.append('after-refusal family: %s produced only %d times' % (need, ar.get(need, 0)))
     rend = m.c('renderer')
     names = set(k.split(' ')[0] for k in rend)
     for need in ('Html', 'Markdown', 'LaTeX', 'Ast', 'Toc', 'GithubWiki', 'MathJax', 'Pygments', 'Jira', 'XWiki20'):
@@ -385,6 +443,9 @@ def finalize(m, tier):
 
 def replay(ctx, case):
     signal.signal(signal.SIGVTALRM, _on_vtalrm)
+    if case.get('kind') == 'after-refusal':
+        after_refusal(ctx, case['index'])
+        return
     execute(ctx, case['text'], case['renderer'], case['opts'], case.get('form', 'str'), case.get('source', 'replay'))
 
 
